@@ -24,7 +24,8 @@ GEOMS = {
     "circle": '<circle cx="50" cy="48" r="27"{a}/>',
     "line": '<line x1="18" y1="25" x2="80" y2="70"{a}/>',
 }
-DASHES = [("none", 0), ("10", 0), ("10", 7), ("10 5", 0), ("10 5", -3), ("10 5 2", 0), ("10 5 2", 7), ("10,5,2", -3)]
+DASHES = [("none", 0), ("10", 0), ("10", 7), ("10 5", 0), ("10 5", -3), ("10 5 2", 0), ("10 5 2", 7), ("10,5,2", -3), ("0 12", 0), ("0 12", 5), ("6 0 0 10", 0), ("6 0 4 10", 3)]
+ZERO_DASHES = [("0 12", 0), ("6 0 0 10", 0), ("6 0 4 10", 3)]
 TRANSFORMS = [None, "scale(1.5,.6)", "rotate(30) translate(12,-18)"]
 WHERE = ["attr", "style", "group", "root"]
 
@@ -80,6 +81,10 @@ def all_cases(tier):
             yield (geom, 10, "butt", join, ml, "none", 0, None, "attr", "none", False)
         for geom in GEOMS:
             yield (geom, 4, "round", "round", 4, "10 5", 0, None, "attr", "orange", False)
+        # dash arrays with zero entries: a zero dash is a dot under round / square caps and nothing under butt caps; a zero gap joins its neighbours
+        for geom, cap, (dash, off), fill in itertools.product(("line", "polyline", "rect", "circle"), ("butt", "round", "square"), ZERO_DASHES, ("none", "orange")):
+            if geom in GEOMS:
+                yield (geom, 4, cap, "round", 4, dash, off, None, "attr", fill, False)
     else:
         for geom, w, cap, join, ml, (dash, off), tf, where, fill, tr in itertools.product(GEOMS, (4, 10), ("butt", "round", "square"), ("miter", "round", "bevel"), (1, 4, 10), DASHES, TRANSFORMS, WHERE, ("none", "orange"), (False, True)):
             if tr and fill == "none":
@@ -109,19 +114,63 @@ def _stroke_without_simplify(svg_cmds, svg_linecap, svg_linejoin, stroke_width, 
     return P.svg_commands(sk)
 
 
-def diagnose(doc, tier, seed):
-    """Is the violation produced by Skia's simplify() of the stroker output (a defect below picosvg)?
-    Convert again with that one call skipped: if the result satisfies the oracle, yes."""
+def _stroke_reference(svg_cmds, svg_linecap, svg_linejoin, stroke_width, stroke_miterlimit, tolerance, dash_array=(), dash_offset=0.0):
+    """what svg_pathops.stroke computes on the unchanged tree, spelled out: Skia stroker, conics to quads, simplify (with fallback)"""
+    import pathops
     from picosvg import svg_pathops as P
 
-    orig = P.stroke
-    P.stroke = _stroke_without_simplify
+    sk = P.skia_path(svg_cmds, fill_rule="nonzero")
+    sk.stroke(stroke_width, P._SVG_TO_SKIA_LINE_CAP[svg_linecap], P._SVG_TO_SKIA_LINE_JOIN[svg_linejoin], stroke_miterlimit, dash_array, dash_offset)
+    sk.convertConicsToQuads(tolerance)
+    backup = pathops.Path(sk)
     try:
+        sk.simplify(fix_winding=True)
+    except pathops.PathOpsError:
+        sk = backup
+    return P.svg_commands(sk)
+
+
+def diagnose(doc, tier, seed):
+    """Is the violation produced by Skia's simplify() of the stroker output (a defect below picosvg)?
+    Two conditions: (1) every call picosvg makes to svg_pathops.stroke during this conversion returns exactly what the
+    plain Skia pipeline (stroker, conics to quads, simplify) returns for the same arguments - i.e. nothing in picosvg's
+    own stroke code contributes; (2) the same conversion with that one simplify() call skipped satisfies the oracle."""
+    from picosvg import svg_pathops as P
+    from picosvg import svg_types as T
+
+    orig = P.stroke
+    same = []
+
+    def recording(*a, **kw):
+        got = list(orig(*a, **kw))
+        try:
+            want = list(_stroke_reference(*a, **kw))
+        except Exception:
+            want = None
+        same.append(want is not None and got == want)
+        return iter(got)
+
+    holders = [m for m in (P, T) if getattr(m, "stroke", None) is orig]
+    try:
+        for m in holders:
+            m.stroke = recording
+        RC.convert(doc)
+    except Exception:
+        return "other"
+    finally:
+        for m in holders:
+            m.stroke = orig
+    if not same or not all(same):
+        return "other"
+    try:
+        for m in holders:
+            m.stroke = _stroke_without_simplify
         o, why, kind, nt, st, out = RC.judge(doc, tier, seed, min_inside=15, min_outside=15, structural=False)
     except Exception:
         return "other"
     finally:
-        P.stroke = orig
+        for m in holders:
+            m.stroke = orig
     return "skia-simplify-after-stroke" if (o == "returned" and not why) else "other"
 
 
